@@ -127,9 +127,16 @@ def run(argv, env, cwd=None, stdin=None, timeout=120):
         return RunResult(None, e.stdout or b"", e.stderr or b"", time.time() - t0, timed_out=True)
 
 
+def _variant_dir(variant):
+    d = os.path.join(BUILD, variant)
+    if REPO != "/repo":
+        d += "-" + hashlib.sha1(REPO.encode()).hexdigest()[:8]
+    return d
+
+
 def fclones_bin(variant="rel"):
     if variant == "rel":
-        return os.path.join(BUILD, "rel", "release", "fclones")
+        return os.path.join(_variant_dir("rel"), "release", "fclones")
     if variant == "asan":
         return os.path.join(BUILD, "asan", "x86_64-unknown-linux-gnu", "release", "fclones")
     if variant == "tsan":
@@ -173,6 +180,7 @@ class Check:
         self.max_samples = 4
         self.max_violation_reports = 10
         self.exhaustive = None
+        self._auto_sample = []
         os.makedirs(EVIDENCE, exist_ok=True)
 
     # -- counting ---------------------------------------------------------------------------
@@ -184,6 +192,8 @@ class Check:
             self.nontrivial.add(_sig(signature))
         if sample is not None and len(self.samples) < self.max_samples:
             self.samples.append(sample)
+        elif sample is None and signature is not None and not self.samples and not self._auto_sample:
+            self._auto_sample = [{"case_signature": repr(signature)[:400]}]
 
     def count(self, key, n=1):
         self.extra[key] = self.extra.get(key, 0) + n
@@ -227,7 +237,7 @@ class Check:
             "evaluations": self.evaluations,
             "distinct_nontrivial": len(self.nontrivial),
             "rule": self.rule,
-            "samples": self.samples,
+            "samples": self.samples or self._auto_sample,
             "inconclusive": sum(self.inconclusive.values()),
             "inconclusive_reasons": self.inconclusive,
             "known_findings_hit": self.known_hits,
